@@ -14,7 +14,6 @@ TODO:
      - copy().
      - expose _key_signature_encode/decode?
 """
-import math
 import struct
 from contextlib import contextmanager
 from numbers import Integral
@@ -373,7 +372,7 @@ class MetaSpec_time_signature(MetaSpec):
 
     def encode(self, message):
         return [message.numerator,
-                int(math.log(message.denominator, 2)),
+                message.denominator.bit_length() - 1,
                 message.clocks_per_click,
                 message.notated_32nd_notes_per_beat,
                 ]
@@ -384,9 +383,7 @@ class MetaSpec_time_signature(MetaSpec):
             # 4/57896044618658097711785492504343953926634...
             #   992332820282019728792003956564819968
             check_int(value, 1, 2 ** 255)
-            encoded = math.log(value, 2)
-            encoded_int = int(encoded)
-            if encoded != encoded_int:
+            if value & (value - 1):
                 raise ValueError('denominator must be a power of 2')
         else:
             check_int(value, 0, 255)
